@@ -763,6 +763,7 @@ guarded_eval!(g_info, eval_info, InfoInput);
 
 pub fn def() -> PropertyDef {
     PropertyDef {
+        fuzz_targets: &[],
         id: "C20",
         level: "exploration",
         rule: "the muxide binary is built from /repo's working tree and run as a subprocess (20 s deadline) on generated command lines: codec names and \
